@@ -41,6 +41,16 @@ PROPS = {
     "C14": sysprop(["C14"], ["adapters", "cancelable", "mixed"], 250, 4000, GEN_RULE),
     "C16": sysprop(["C16"], ["mixed", "local", "default"], 250, 4000, GEN_RULE),
     "C17": sysprop(["C17"], ["mixed", "local", "default"], 250, 4000, GEN_RULE),
+    "C15": {"coq": ["C15"], "streams": [S.twins_stream], "replay_sub": "sys",
+            "rule": "catalogue of 13 function shapes (sync with early return / ? / panic / generic with lifetime / &mut self method; "
+                    "async fn with in_span and with enter_on_poll; hand-written Box::pin forms with and without leading statements; "
+                    "async-trait method) x attribute combinations (default path name, short_name, name, properties with {{ }} escapes "
+                    "and {arg} placeholders) x generated arguments (negative / zero / parseable / empty / multi-byte strings, 0-2 "
+                    "Pending polls); every entry exists as identical plain and #[trace] text; a case is one (shape, arguments) pair",
+            "trusted_base": ["harness/core twins.rs: the plain and traced items are the same source text; the expected decomposition "
+                             "of the generated code into API calls is written by hand per bracket shape"],
+            "assumptions": ["the theorem is about the shape of the generated body, not about syn/quote or Rust's ownership rules",
+                            "the order in which unused by-value arguments are dropped is not claimed"]},
     "C18": sysprop(["C18"], ["mixed", "local", "default", "adapters"], 150, 3000,
                    GEN_RULE + "; C18 compares times: order of all time points of a report against the model's logical clock, "
                    "durations against the wall-clock bracket of the calls that started/finished the span (20us + 2% slack), "
